@@ -1571,6 +1571,7 @@ class Normaliser:
         for _round in range(6):
             n0 = len(self.log)
             self._fold_new_locals(path, qual, func, known | params)
+            self._split_local_tuples(path, qual, func, known | params)
             if any(l.startswith('N7') for l in self.log[n0:]):
                 self._fold_attr_strings(func)
                 # unrolling a dispatch table exposes calls to new helpers (bound methods taken from the table): inline them now
@@ -2291,6 +2292,70 @@ class Normaliser:
                     blk[i:i + 1] = new_assigns
                     break
             norm.log.append(f'N7 {path}::{qual}: fields of the local {cls} {v} replaced by the expressions it was built from')
+
+    def _split_local_tuples(self, path, qual, func, known):
+        """a new local that is only ever bound to k-tuples written out in place and only ever read through v[0] .. v[k-1] is
+        k separate locals"""
+        params = {x.arg for x in func.args.posonlyargs + func.args.args + func.args.kwonlyargs}
+        binds, loads, other = {}, {}, set()
+        parent = {}
+        for n in ast.walk(func):
+            for c in ast.iter_child_nodes(n):
+                parent[id(c)] = n
+        for n in ast.walk(func):
+            if isinstance(n, ast.Name):
+                if n.id in known or n.id in params:
+                    continue
+                par = parent.get(id(n))
+                if isinstance(n.ctx, ast.Store):
+                    if isinstance(par, ast.Assign) and len(par.targets) == 1 and par.targets[0] is n and isinstance(par.value, ast.Tuple) \
+                            and not any(isinstance(e, ast.Starred) for e in par.value.elts) \
+                            and not any(isinstance(m, ast.Name) and m.id == n.id for m in ast.walk(par.value)):
+                        binds.setdefault(n.id, []).append(par)
+                    else:
+                        other.add(n.id)
+                elif isinstance(n.ctx, ast.Load):
+                    if isinstance(par, ast.Subscript) and par.value is n and isinstance(par.ctx, ast.Load) and isinstance(par.slice, ast.Constant) and isinstance(par.slice.value, int) \
+                            and not isinstance(par.slice.value, bool):
+                        loads.setdefault(n.id, []).append(par)
+                    else:
+                        other.add(n.id)
+                else:
+                    other.add(n.id)
+            elif isinstance(n, (ast.FunctionDef, ast.Lambda)) and n is not func:
+                for m in ast.walk(n):
+                    if isinstance(m, ast.Name):
+                        other.add(m.id)
+        done = False
+        for v, bl in binds.items():
+            if v in other or v not in loads:
+                continue
+            ks = {len(b.value.elts) for b in bl}
+            if len(ks) != 1:
+                continue
+            k = ks.pop()
+            if not all(0 <= sub.slice.value < k for sub in loads[v]):
+                continue
+            for sub in loads[v]:
+                holder = parent.get(id(sub))
+                new = ast.copy_location(ast.Name(id=f'{v}__{sub.slice.value}', ctx=ast.Load()), sub)
+                for fld, val in ast.iter_fields(holder):
+                    if val is sub:
+                        setattr(holder, fld, new)
+                    elif isinstance(val, list):
+                        for i, x in enumerate(val):
+                            if x is sub:
+                                val[i] = new
+            for b in bl:
+                reps = [ast.copy_location(ast.Assign(targets=[ast.Name(id=f'{v}__{i}', ctx=ast.Store())], value=e, lineno=b.lineno), b) for i, e in enumerate(b.value.elts)]
+                for blk in self._blocks(func):
+                    if any(x is b for x in blk):
+                        i = [j for j, x in enumerate(blk) if x is b][0]
+                        blk[i:i + 1] = reps
+                        break
+            self.log.append(f'N7 {path}::{qual}: new local {v} (always a {k}-tuple read by position) split into {k} locals')
+            done = True
+        return done
 
     def _forward_once(self, path, qual, func, known):
         params = {x.arg for x in func.args.posonlyargs + func.args.args + func.args.kwonlyargs}
